@@ -565,6 +565,37 @@ func init() {
 	regScenario("rcl3", mkRCL(3, false, false))
 	regScenario("rcl3-snap", mkRCL(3, true, false))
 	regScenario("rcl1-many", mkRCL(1, true, true))
+	// life after a RestoreCommittedLogs restart: the restarted servers must still accept a membership change and
+	// take snapshots that carry the configuration they act on
+	mkAfter := func(n int) func() *Scenario {
+		return func() *Scenario {
+			ns := append(voters(n), NodeSpec{Suffrage: raft.Nonvoter, StartUp: true})
+			return &Scenario{Nodes: ns, Store: StoreCommitTracking, RCL: true, Devs: DevAll, Horizon: 800, Goal: goalConverged, AutoRestart: true, Liveness: true,
+				Conf: func(i int, c *raft.Config) { c.MaxAppendEntries = 2; c.TrailingLogs = 0 },
+				Steps: []Step{
+					stepApplyLeader("apply1"), stepApplyLeader("apply2"),
+					stepDo("crash-all", whenSettled, func(w *World) {
+						for _, nd := range w.nodes[:n] {
+							w.crash(nd)
+						}
+					}),
+					stepDo("restart-all", nil, func(w *World) {
+						for _, nd := range w.nodes[:n] {
+							w.start(nd)
+						}
+					}),
+					stepDo("add-nonvoter", whenSettled, func(w *World) { w.addNonvoter(w.leader(), n, 0) }),
+					stepApplyLeader("apply3"),
+					stepDo("user-snapshot", whenSettled, func(w *World) { w.snapshot(w.leader()) }),
+					stepApplyLeader("apply4"),
+					stepDo("crash-leader", whenSettled, func(w *World) { l := w.leader(); w.vals["rl"] = l.id; w.crash(l) }),
+					stepDo("restart-leader", nil, func(w *World) { w.start(w.nodes[w.vals["rl"]]) }),
+					stepApplyLeader("apply5"),
+				}}
+		}
+	}
+	regScenario("rcl1-after", mkAfter(1))
+	regScenario("rcl3-after", mkAfter(3))
 }
 
 func init() {
@@ -824,6 +855,39 @@ func init() {
 		}
 	}
 	regScenario("batch-mix", mkMix(FSMBatching))
+	// A new leader applies an old-term entry it had stored but not yet applied (no caller waits for it on this
+	// server) in the same FSM batch as a fresh client command: the old leader crashes right after acknowledging
+	// apply2, before the followers learn that it is committed, and apply3 is submitted as soon as a new leader
+	// exists. If the new leader's first AppendEntries is lost, its no-op and apply3 commit in one step and the
+	// batch is [apply2 (no future), apply3 (future)]; the caller of apply3 must get apply3's response.
+	mkLag := func(fsm FSMKind) func() *Scenario {
+		return func() *Scenario {
+			return &Scenario{Nodes: voters(3), FSM: fsm, Devs: DevAll, Horizon: 500, Goal: func(w *World) bool { return w.vals["a3"] == 1 && w.converged() },
+				Conf: func(i int, c *raft.Config) { c.MaxAppendEntries = 8 },
+				Steps: []Step{
+					stepApplyLeader("apply1"),
+					stepDo("apply2", whenSettled, func(w *World) {
+						l := w.leader()
+						w.vals["old"] = l.id
+						w.vals["c2"] = w.apply(l, 0).ID
+					}),
+					urgent(stepDo("crash-old-leader", func(w *World) bool { return w.calls[w.vals["c2"]].Done }, func(w *World) {
+						w.crash(w.nodes[w.vals["old"]])
+					})),
+					urgent(stepDo("apply3-on-new-leader", func(w *World) bool {
+						l := w.leader()
+						return l != nil && l.id != w.vals["old"]
+					}, func(w *World) {
+						w.apply(w.leader(), 0)
+						w.vals["a3"] = 1
+					})),
+					stepDo("restart-old", whenSettled, func(w *World) { w.start(w.nodes[w.vals["old"]]) }),
+					stepApplyLeader("apply4"),
+				}}
+		}
+	}
+	regScenario("batch-lag", mkLag(FSMBatching))
+	regScenario("batch-lag-plain", mkLag(FSMPlain))
 	regScenario("batch-mix-plain", mkMix(FSMPlain))
 	regScenario("batch-mix-cfgstore", mkMix(FSMConfigStore))
 }
